@@ -1,6 +1,6 @@
 package batchers
 
 const (
-	zzStream = 6
+	zzStream = 5
 	zzBatch  = 3
 )
